@@ -525,8 +525,22 @@ func genC11(r *gen.Rng, tier string, emit func(string)) {
 	// Address.String on every (ton, npi) in 0..3 x 0..3 with empty / '+'-prefixed / plain numbers
 	for ton := 0; ton < 4; ton++ {
 		for npi := 0; npi < 4; npi++ {
-			for _, no := range []string{"", "+", "+49", "49", "0"} {
+			// every number over the alphabet {'+','0','4'} of up to 4 characters (dialling prefixes, lone signs, ...)
+			short := []string{""}
+			for lvl, prev := 0, []string{""}; lvl < 4; lvl++ {
+				var next []string
+				for _, s := range prev {
+					for _, ch := range []string{"+", "0", "4"} {
+						next = append(next, s+ch)
+					}
+				}
+				short = append(short, next...)
+				prev = next
+			}
+			for _, no := range short {
 				emit(fmt.Sprintf("addrstr %d.%d.%s", ton, npi, canon.Hex([]byte(no))))
+			}
+			for _, no := range []string{"", "+", "+49", "49", "0", "00", "000", "0049", "+0", "+00"} {
 				// and inside PDUs of the address-bearing types
 				a := pdu.Address{TON: byte(ton), NPI: byte(npi), No: no}
 				for _, p := range []interface{}{
